@@ -9,8 +9,18 @@ def call(m, **kw):
     c.update(kw)
     return c
 
+def enc(s):
+    """The harness' reversible string encoding (h.Enc): printable ASCII except % " \\ stays, other bytes become %HH."""
+    out = []
+    for b in s.encode("utf-8", "surrogateescape"):
+        if b < 0x20 or b > 0x7e or b in (0x25, 0x22, 0x5c):
+            out.append("%%%02X" % b)
+        else:
+            out.append(chr(b))
+    return "".join(out)
+
 def tok(t, n="", a=(), d=""):
-    return dict(t=t, n=n, a=[dict(k=k, v=v) for k, v in a], d=d)
+    return dict(t=t, n=enc(n), a=[dict(k=enc(k), v=enc(v)) for k, v in a], d=enc(d))
 
 def AA(attrs, els=(), match="", noattrs=False, pat=None):
     if pat is not None:
@@ -67,7 +77,131 @@ def fam_loopq():
     f["name"] = "loopq"
     return f
 
-FAMS = dict(loop=fam_loop, loopq=fam_loopq)
+
+# ---------------------------------------------------------------- attribute families
+def av(k, vals):
+    return [dict(k=enc(k), v=enc(v)) for v in vals]
+
+def fam_link():
+    """C11: all 2^5 link-option combinations x a/area/link x order and multiplicity of href/rel/target."""
+    opts = ["RequireNoFollowOnLinks", "RequireNoFollowOnFullyQualifiedLinks", "RequireNoReferrerOnLinks",
+            "RequireNoReferrerOnFullyQualifiedLinks", "AddTargetBlankToFullyQualifiedLinks"]
+    recipes = []
+    for bits in itertools.product([False, True], repeat=5):
+        r = [call("NewPolicy"), AA(["href", "rel", "target"], ["a", "area", "link"]),
+             call("AllowURLSchemes", schemes=["http", "https"]), call("AllowRelativeURLs", b=True)]
+        for o, b in zip(opts, bits):
+            if b: r.append(call(o, b=True))
+        if not any(bits): r.append(call("RequireParseableURLs", b=True))
+        recipes.append(r)
+    # an option switched on and off again, and URL checking switched off after the link options
+    recipes.append([call("NewPolicy"), AA(["href", "rel", "target"], ["a", "area", "link"]),
+                    call("RequireNoFollowOnLinks", b=True), call("RequireNoFollowOnLinks", b=False),
+                    call("AddTargetBlankToFullyQualifiedLinks", b=True), call("AllowURLSchemes", schemes=["http"])])
+    recipes.append([call("NewPolicy"), AA(["href", "rel", "target"], ["a", "area", "link"]),
+                    call("RequireNoReferrerOnLinks", b=True), call("AddTargetBlankToFullyQualifiedLinks", b=True),
+                    call("RequireParseableURLs", b=False)])
+    alpha = (av("href", ["http://e.com/x", "/rel", "javascript:x"]) +
+             av("rel", ["nofollow", "NOFOLLOW", "xnofollowx", "tag noopener", "notnoopenerx noreferrer"]) +
+             av("target", ["_blank", "_top"]))
+    return dict(name="link", recipes=recipes, tokens=[], attrs={"a": alpha, "area": alpha, "link": alpha})
+
+URLS = ["http://example.org/a?b=1&c=2", "https://e.com", "/rel/path", "#frag", "javascript:alert(1)", "JaVaScRiPt:alert(1)",
+        " javascript:alert(1)", "java\tscript:alert(1)", "data:image/png;base64,iVBORw0KGgo=", "data:text/html,<script>alert(1)</script>",
+        "mailto:a@b.c", "//host/p", "http://a b/", "%zz", "", "ftp://f/x", "tel:+1", "http:\\\\e.com\\p", "HTTP://EXAMPLE.ORG/Up",
+        "http://u:p@example.org/", "\x01javascript:alert(1)", "x:y", "?q=1", "http://example.com/\u00e9"]
+
+def fam_url():
+    """C03: every listed URL position x the URL catalogue x scheme allowlists / custom checks / relative / rewriter."""
+    els = {"a": "href", "area": "href", "base": "href", "link": "href", "blockquote": "cite", "del": "cite", "ins": "cite",
+           "q": "cite", "audio": "src", "embed": "src", "iframe": "src", "img": "src", "input": "src", "script": "src",
+           "source": "src", "track": "src", "video": "src", "span": "href"}
+    base = [call("NewPolicy"), AA(["href", "cite", "src", "class"], sorted(els))]
+    hx = "f:verifharness/h.URLPolExampleHost"
+    nq = "f:verifharness/h.URLPolNoQuery"
+    prox = "f:verifharness/h.RewriteProxy"
+    recipes = [
+        base + [call("AllowURLSchemes", schemes=["http", "https"])],
+        base + [call("AllowURLSchemes", schemes=["HTTP", "mailto"]), call("AllowRelativeURLs", b=True)],
+        base + [call("AllowRelativeURLs", b=True), call("AllowURLSchemeWithCustomPolicy", scheme="http", fid=hx),
+                call("AllowURLSchemeWithCustomPolicy", scheme="http", fid=nq)],
+        base + [call("AllowRelativeURLs", b=True), call("AllowURLSchemes", schemes=["https"]), call("AllowURLSchemesMatching", pat="^(ftp|tel)$")],
+        base + [call("AllowURLSchemes", schemes=["http", "https"]), call("AllowRelativeURLs", b=True), call("RewriteSrc", fid=prox)],
+        base + [call("AllowURLSchemes", schemes=["http"]), call("RequireParseableURLs", b=False)],
+        base + [call("AllowDataURIImages"), call("AllowRelativeURLs", b=True)],
+        base + [call("AllowStandardURLs")],
+        base + [call("AllowURLSchemeWithCustomPolicy", scheme="http", fid=hx), call("AllowURLSchemes", schemes=["http"])],
+        base + [call("AllowURLSchemesMatching", pat="^x")],
+        base + [call("AllowURLSchemes", schemes=["data", "http"]), call("AllowRelativeURLs", b=True), call("AllowRelativeURLs", b=False)],
+    ]
+    attrs = {el: av(k, URLS) + av("class", ["k"]) for el, k in els.items()}
+    return dict(name="url", recipes=recipes, tokens=[], attrs=attrs)
+
+def fam_forced():
+    """C12: crossorigin and sandbox forcing."""
+    els = ["audio", "img", "link", "video", "iframe", "span", "script"]
+    base = [call("NewPolicy"), AA(["src", "crossorigin", "sandbox", "class"], els)]
+    sb = [None, [], ["allow-forms"], ["allow-forms", "allow-scripts"],
+          ["allow-downloads", "allow-downloads-without-user-activation", "allow-forms", "allow-modals", "allow-orientation-lock",
+           "allow-pointer-lock", "allow-popups", "allow-popups-to-escape-sandbox", "allow-presentation", "allow-same-origin",
+           "allow-scripts", "allow-storage-access-by-user-activation", "allow-top-navigation", "allow-top-navigation-by-user-activation"]]
+    recipes = []
+    for co in (False, True):
+        for s in sb:
+            r = list(base)
+            if co: r.append(call("RequireCrossOriginAnonymous", b=True))
+            if s is not None: r.append(call("RequireSandboxOnIFrame", vals=s))
+            recipes.append(r)
+    recipes.append([call("NewPolicy"), call("AllowIFrames", vals=["allow-forms"]), call("RequireCrossOriginAnonymous", b=True),
+                    call("RequireCrossOriginAnonymous", b=False), call("RequireSandboxOnIFrame", vals=["allow-scripts"])])
+    recipes.append(base + [call("AllowURLSchemes", schemes=["https"]), call("RequireSandboxOnIFrame", vals=["allow-forms"]),
+                           call("RequireCrossOriginAnonymous", b=True)])
+    alpha = (av("crossorigin", ["anonymous", "use-credentials", ""]) +
+             av("sandbox", ["allow-forms", "allow-forms allow-forms", "allow-scripts bogus\tallow-forms", "", "ALLOW-FORMS"]) +
+             av("src", ["/x"]) + av("class", ["k"]) + av("onclick", ["x"]))
+    return dict(name="forced", recipes=recipes, tokens=[], attrs={e: alpha for e in els})
+
+def fam_allow():
+    """C02: overlapping element / element-pattern / global rules, data attributes, never-bare elements."""
+    lower, digits = "re:^[a-z]+$", "re:^[0-9]+$"
+    base = [call("NewPolicy"),
+            AA(["class"], ["span"], match=lower), AA(["CLASS"], [], match=digits), AA(["id"], []),
+            AA(["title"], pat="^custom-", noattrs=True), AA(["title"], pat="-x$", match="re:^t"),
+            AA(["lang"], ["custom-x"]), call("AllowElements", names=["B"]), AA(["href"], ["a"]),
+            AA(["style"], ["span"])]
+    recipes = [base, base + [call("AllowDataAttributes")],
+               base + [AA(["class"], ["span"]), AA([], ["a"], noattrs=True)],
+               [call("NewPolicy"), AA(["class", "title"], pat=".*", match=lower), call("AllowElementsMatching", pat="^b")]]
+    alpha = (av("class", ["abc", "123", "a1"]) + av("id", ["x"]) + av("title", ["tt", "zz"]) + av("lang", ["en"]) +
+             av("onclick", ["x"]) + av("data-x", ["1"]) + av("data-a;b", ["1"]) + av("data-xmlq", ["1"]) + av("data-adata-;x", ["1"]) + av("data-data-xmlq", ["1"]) + av("x\"y", ["v"]) +
+             av("href", ["/x"]) + av("style", ["color: red"]))
+    els = ["span", "custom-x", "custom-y", "b", "a", "blink", "bx-x"]
+    return dict(name="allow", recipes=recipes, tokens=[], attrs={e: alpha for e in els})
+
+STYLES = ["color: red", "color: red; background: url(javascript:alert(1))", "COLOR: RED; font-size: 12px", "text-align: center;;",
+          "width: expression(alert(1))", "color: \\72 ed", "-webkit-transition: none", "color: red !important",
+          "background-image: url('http://e.com/a;b.png')", "/* c */ color: blue", "color", "color: r\\65 d",
+          "font-family: \\110000 x", "color: re\\20 d", "font-size: 12px; color: blue; width: 1px", "-moz--webkit-color: red", ""]
+
+def fam_style():
+    """C10: style rules at the three scopes with the four matcher kinds."""
+    def AS(props, scope, els=(), pat="", handler="", enum="", re=""):
+        return call("AllowStyles", props=list(props), scope=scope, els=list(els), pat=pat, handler=handler, enum=enum, re=re)
+    base = [call("NewPolicy"), AA(["style", "class"], ["span", "p", "custom-x", "div"])]
+    noparen = "h:verifharness/h.StyleHNoParen"
+    recipes = [
+        base + [AS(["color", "font-size", "text-align", "background", "width", "font-family", "transition", "background-image"], "glob")],
+        base + [AS(["color"], "els", els=["span"], enum="e:red|blue"), AS(["font-size"], "glob", re="r:^[0-9]+px$")],
+        base + [AS(["color", "width"], "pat", pat="^custom-", handler=noparen), AS(["COLOR"], "els", els=["P"], re="r:^(red|blue)$")],
+        base + [AS(["color"], "els", els=["span"], enum="e:red"), AS(["color"], "els", els=["span"], re="r:^blue$"),
+                AS(["color"], "pat", pat="^sp", enum="e:green")],
+        base + [AS(["nosuchprop", "color"], "els", els=["span"])],
+        base,
+    ]
+    alpha = av("style", STYLES) + av("class", ["k"])
+    return dict(name="style", recipes=recipes, tokens=[], attrs={e: alpha for e in ["span", "p", "custom-x", "div"]})
+
+FAMS = dict(loop=fam_loop, loopq=fam_loopq, link=fam_link, url=fam_url, forced=fam_forced, allow=fam_allow, style=fam_style)
 
 if __name__ == "__main__":
     here = os.path.dirname(os.path.abspath(__file__))
